@@ -403,6 +403,39 @@ def check_special(case):
                 ref2 = np.arccos(np.einsum("...l,l->...", a, w) / (na * np.linalg.norm(w)))
             good2 = (na > 0) & np.isfinite(ref2)
             require(np.allclose(ang2.array[..., 0][good2], ref2[good2], rtol=1e-9, atol=1e-7), "angle-vector-value")
+    # a scalar field combined with a constant vector whose length happens to equal the number of cells (1-d mesh): a
+    # vector field with that many components (numpy: (n, 1) op (n,) -> (n, n)), not a per-cell combination
+    S = fields["S"]
+    if len(n) == 1 and n[0] >= 2 and S.array.dtype.kind != "c":
+        vec = tuple(float(i + 2) for i in range(n[0]))
+        for form in (vec, list(vec), np.array(vec)):
+            for opname, fn in (("add", lambda x, y: x + y), ("mul", lambda x, y: x * y), ("rsub", lambda x, y: y - x),
+                               ("div", lambda x, y: x / y)):
+                r = fn(S, form)
+                want = fn(arrays["S"].astype(float), np.array(vec))
+                if r.nvdim != n[0] or r.array.shape != (n[0], n[0]) or not np.allclose(r.array, want, rtol=1e-12):
+                    raise Violation("scalar-with-vector-of-mesh-length",
+                                    f"scalar field on {n[0]} cells {opname} constant {n[0]}-vector ({type(form).__name__}): "
+                                    f"nvdim {r.nvdim}, shape {r.array.shape}")
+    # labelled fields with distinct labels stacked: operands (their mappings included) stay as they are
+    if k > 1 and fields["A"].vdims:
+        import discretisedfield as df
+
+        A2 = fields["A"]
+        other_labels = [f"q{c}_{lab}" for c, lab in enumerate(A2.vdims)]
+        Bl = df.Field(mesh, nvdim=k, value=arrays["B"], vdims=other_labels,
+                      vdim_mapping={ol: A2.vdim_mapping.get(lab) for ol, lab in zip(other_labels, A2.vdims)}
+                      if A2.vdim_mapping else None)
+        before = (dict(A2.vdim_mapping), dict(Bl.vdim_mapping), list(A2.vdims), list(Bl.vdims))
+        st_ = A2 << Bl
+        neg = -A2  # a result that shares nothing with the stack
+        if (dict(A2.vdim_mapping), dict(Bl.vdim_mapping), list(A2.vdims), list(Bl.vdims)) != before:
+            raise Violation("stack-modified-operand-mapping", f"A << B changed an operand's labels or mapping: "
+                                                              f"{dict(A2.vdim_mapping)} / {dict(Bl.vdim_mapping)}")
+        require(st_.nvdim == 2 * k and np.array_equal(st_.array[..., :k], arrays["A"]) and np.array_equal(st_.array[..., k:], arrays["B"]),
+                "stack-labelled-values")
+        require(list(st_.vdims or []) == list(A2.vdims) + other_labels, "stack-labelled-labels", f"{st_.vdims}")
+        require(neg.nvdim == k, "stack-then-neg")
     # integer-typed fields with components whose squares leave the range of the dtype (Ms = 800000 as int32): lengths
     # and angles are taken in floating point
     import discretisedfield as df
